@@ -1,0 +1,32 @@
+/*
+ * Verification hooks for the NanoVM (compiled only with -DNANOLANG_VERIF).
+ *
+ * H2: registry of live VM heap objects with stable ids (heap.c).
+ * H1: per-instruction state trace and instruction budget (vm.c).
+ * Everything is inert unless NANOLANG_VERIF_TRACE / NANOLANG_VERIF_FUEL are set.
+ */
+#ifndef NANOVM_VERIF_HOOKS_H
+#define NANOVM_VERIF_HOOKS_H
+#ifdef NANOLANG_VERIF
+
+#include <stdint.h>
+#include <stdio.h>
+
+struct VmState;
+
+/* registry (defined in heap.c) */
+void nlv_reg_alloc(void *ptr, int tag);
+void nlv_reg_free(void *ptr, int tag);
+int  nlv_reg_id(const void *ptr);            /* id > 0, or -1 if ptr is not a live registered object */
+int  nlv_reg_count(void);
+const void *nlv_reg_ptr_at(int slot, int *id, int *tag);   /* iteration over live objects; slot in [0, cap) */
+int  nlv_reg_cap(void);
+FILE *nlv_trace_file(void);                  /* NULL when tracing is off */
+long nlv_fuel(void);                         /* < 0: unlimited */
+unsigned nlv_str_key(const char *data, uint32_t len);
+
+#define NLV_ALLOC(p, tag) nlv_reg_alloc((p), (tag))
+#define NLV_FREE(p, tag)  nlv_reg_free((p), (tag))
+
+#endif /* NANOLANG_VERIF */
+#endif
